@@ -90,8 +90,13 @@ class Checker:
         self.cur_n = None
 
     # ------------------------------------------------------------------ expected sets
+    role = "main"
+
+    shared_provider = None    # a listener object of the main instance also attached to the other one
+
     def _prov_ok(self, cb):
-        return cb["provider"] in self.active
+        role = "main" if cb["provider"] == self.shared_provider else self.role
+        return cb["provider"] in self.active and cb.get("inst") in (None, role)
 
     def tset(self, t, group, trigger):
         out = set()
